@@ -270,17 +270,16 @@ Fixpoint run (s : st) (ops : list wop) : st :=
   end.
 
 (** ** crash and reopen (DB.Open, then OpenWALStorage per group) *)
-(** DB contents: per key the value with the greatest sequence number among the
-    installed tables and the replayed segments *)
+(** DB contents.  Plain Set writes all carry the same (sentinel) version, so
+    the search order decides: the memtables rebuilt from the replayed segments
+    (newest segment first, within one the last write), then the tables (newest
+    first).  That is the *last* occurrence of the key in "installed tables, then
+    the surviving segments in id order" - also when a surviving segment is an
+    old one that was flushed long ago. *)
 Definition newest (kvs : list (N * N * N)) (k : N) : option (N * N) :=
   fold_left (fun acc e =>
     let '(k', v, q) := e in
-    if k' =? k then
-      match acc with
-      | Some (_, q0) => if q0 <? q then Some (v, q) else acc
-      | None => Some (v, q)
-      end
-    else acc) kvs None.
+    if k' =? k then Some (v, q) else acc) kvs None.
 
 Definition recovered_kvs (s : st) : list (N * N * N) :=
   s_flushed s ++ flat_map (fun sg => lsm_of (snd sg)) (recovery_cleanup s).
